@@ -180,12 +180,4 @@ Definition ex_dups : list entry :=
 Definition ex_files : list entry :=
   [mk "a" EFile 1 33188; mk "a" EFile 2 33188; mk "a_0202020202" EFile 3 33188; mk "a" EFile 2 33188].
 
-Example ex_files_names :
-  match repair (fun m => m) ex_files [] None with
-  | RepOk f d => (f, map e_name (o_entries d))
-  | _ => (false, [])
-  end = (true, [bs "a"; bs "a_0202020202_1"; bs "a_0202020202_2"; bs "a_0202020202"]).
-Proof. vm_compute. reflexivity. Qed.
 
-Example ex_files_old : repair_old (fun m => m) ex_files [] None = RepValueError.
-Proof. vm_compute. reflexivity. Qed.
